@@ -690,6 +690,10 @@ func runScenario(sc scenario) (res *result) {
 		runClientScenario(sc, res)
 		return
 	}
+	if sc.Mode == "v1echo" {
+		runV1Echo(sc, res)
+		return
+	}
 	mode := sched.Free
 	if sc.Mode == "replay" {
 		mode = sched.Controlled
@@ -1091,6 +1095,92 @@ func (w *world) serverSession(res *result) {
 			}
 		}
 	}
+}
+
+// ------------------------------------------------------------------ C05 over the legacy v1 framing
+// runV1Echo: the real client against a minimal ATP v1 server written here around the REAL CallableSchema
+// (hello with version 1, then per unwrapped work-start one unwrapped work-done; v1 carries no run IDs and no
+// error messages, so calls are strictly serial and a step error ends the stream). Every Execute result is
+// compared with the in-process call, as in v3.
+func runV1Echo(sc scenario, res *result) {
+	w := &world{sc: sc, res: map[string]*execResult{}, sigTo: map[string]chan schema.Input{},
+		sigFrm: map[string]chan schema.Input{}, sigStop: map[string]chan struct{}{}, sigSenders: map[string][]chan struct{}{},
+		closeC: make(chan error, 1), spawned: map[string]bool{}}
+	w.s = sched.New(sched.Free)
+	w.s.Classify = classify
+	atp.VerifHook = w.s.Hook
+	defer func() { atp.VerifHook = nil }()
+	w.c2s = sched.NewPipe("c2s", w.s, sc.Cap)
+	w.s2c = sched.NewPipe("s2c", w.s, sc.Cap)
+	if sc.Frag {
+		seed := uint64(sc.Seed)*2654435761 + 99991
+		next := func() uint64 { seed ^= seed << 13; seed ^= seed >> 7; seed ^= seed << 17; return seed }
+		for _, p := range []*sched.Pipe{w.c2s, w.s2c} {
+			p.SplitAt = func(n int, size int) int {
+				if size < 2 || next()%3 == 0 {
+					return 0
+				}
+				return 1 + int(next()%uint64(size-1))
+			}
+			p.MaxFrags = func(n int, avail int) int { return 1 + int(next()%uint64(avail)) }
+		}
+	}
+	plug := w.plugin()
+	w.plug = w.plugin()
+	go func() {
+		dec := cbor.NewDecoder(sched.ReadEnd{P: w.c2s})
+		enc := cbor.NewEncoder(sched.WriteEnd{P: w.s2c})
+		defer w.s2c.CloseWrite()
+		var start any
+		if dec.Decode(&start) != nil {
+			return
+		}
+		ser, err := plug.SelfSerialize()
+		if err != nil || enc.Encode(atp.HelloMessage{Version: 1, Schema: ser}) != nil {
+			return
+		}
+		n := 0
+		for {
+			var ws atp.WorkStartMessage
+			if dec.Decode(&ws) != nil {
+				return
+			}
+			n++
+			id, data, err := plug.CallStep(context.Background(), fmt.Sprintf("v1-%d", n), ws.StepID, ws.Config)
+			if err != nil {
+				return // v1 has no error message: the plugin gives up
+			}
+			if enc.Encode(atp.WorkDoneMessage{StepID: ws.StepID, OutputID: id, OutputData: data}) != nil {
+				return
+			}
+		}
+	}()
+	w.cli = atp.NewClientWithLogger(sched.Duplex{In: w.s2c, Out: w.c2s}, nil)
+	if _, err := w.cli.ReadSchema(); err != nil {
+		res.FollowErr = "v1 handshake: " + err.Error()
+		return
+	}
+	for _, rs := range sc.Runs {
+		w.spawnCaller(rs.ID)
+		done := make(chan struct{})
+		go func() { w.callWG.Wait(); close(done) }()
+		select {
+		case <-done:
+		case <-time.After(15 * time.Second):
+			res.Stuck = true
+			for _, g := range sched.BlockedSDK() {
+				res.StuckDetail = append(res.StuckDetail, fmt.Sprintf("%s [%s] %s", w.s.Role(g.ID), g.State, strings.TrimSpace(g.Top)))
+			}
+			return
+		}
+	}
+	w.c2s.CloseWrite()
+	w.mu.Lock()
+	for id, e := range w.res {
+		res.Results[id] = *e
+	}
+	w.mu.Unlock()
+	res.Events = w.s.Events()
 }
 
 // ------------------------------------------------------------------ C08: real client against a scripted, breaking server stream
